@@ -157,6 +157,12 @@ def fold_records(ck, tree, thorough):
     for out in [b"", b"r\0K\0", b"K\0", b"r\0", b"h\0D\0", b"s\0Z\0", b"x"]:
         for ex in ("exit 1", "exit 100", "exit 111", "exit 99", "exit 255", "signal 9", "signal 11", "signal 15", "signal 6"):
             cases.append((out, ex))
+    # a client that closes its output and dies a moment later: the end of its report must not be taken for the end of the client
+    # (the relay waits for the exit status that belongs to THIS client; a slot's previous occupant exited 0)
+    for rep in range(2):
+        for out in [b"K\0", b"r\0K\0", b"Kmessage accepted\0", b"r\0"]:
+            for ex in ("late signal 11", "late exit 100", "late exit 111", "late signal 9", "late exit 0"):
+                cases.append((out, ex))
     ids = sandbox.write_ids(ck.scratch.path("ids"), tree.root)
     # a message file owned by the queue user
     q = os.path.join(tree.root, "queue", "mess", "1")
@@ -182,6 +188,7 @@ def fold_records(ck, tree, thorough):
         for i, (out, ex) in enumerate(batch):
             texts = byd.get(i, [])
             relayed = texts[0][0] if len(texts) == 1 and texts[0] else 0
+            ex = ex[5:] if ex.startswith("late ") else ex
             excode = int(ex.split()[1]) if ex.startswith("exit") else 0
             recs.append({"kind": "fold", "ex": excode, "cr": 1 if ex.startswith("signal") else 0, "out": list(out), "relayed": relayed,
                          "nreports": len(texts), "exspec": ex})
